@@ -60,7 +60,7 @@ C03_FreshAccepted ==
 GreyBandAvoided == \A i \in 1..Len(Ladder) : Ladder[i] <= Lifetime \/ Ladder[i] >= Lifetime + 60
 
 MCLadder == <<59, 1800, 3540, 3599, 3600, 3660, 3661, 7200, 90000>>
-MCMuts == {"none", "flipFirst", "flipLast", "flipMid", "trunc", "extend", "prefix", "badchars", "otherKey", "empty", "spaces"}
+MCMuts == {"none", "flipFirst", "flipLast", "flipMid", "trunc", "extend", "extendLong", "prefix", "badchars", "otherKey", "empty", "spaces"}
 ASSUME PrintT("META " \o ToJson([Sys |-> "nonce"]))
 EmitEdge ==
   PrintT("EDGE " \o ToJson([s |-> [impl |-> impl, hlen |-> hlen, minted |-> minted, rung |-> rung], a |-> last', o |-> out',
